@@ -276,7 +276,7 @@ def run(ctx):
                 idx = list(range(N - k, N))
             else:
                 idx = sorted(rng.sample(range(N), k))
-            for steps in (pipelines(k) if not ctx.quick else rng.sample(pipelines(k), 4)):
+            for steps in (pipelines(k) if not ctx.quick else rng.sample(pipelines(k), 4) + [[["eq"]]]):
                 n += 1
                 check_register(ctx, {"k": k, "N": N, "mode": mode, "specs": specs, "steps": steps}, idx,
                                rng.random() < ctx.pick(0.15, 0.3))
